@@ -25,11 +25,28 @@ MAX_DEPTH = 14
 OPAQUE_MODULES = ("coxeter.extern.bentley_ottmann",)
 
 
+def baxis_of(v):
+    """position of the batch axis of a batch-carrying value, when known (tag ('baxis', k))."""
+    if v is None:
+        return None
+    for t in v.tags:
+        if isinstance(t, tuple) and t and t[0] == "baxis":
+            return t[1]
+    return None
+
+
 def batch_tag(*vals):
+    ks = set()
+    found = False
     for v in vals:
         if v is not None and "batch" in v.tags:
-            return frozenset(["batch"])
-    return frozenset()
+            found = True
+            ks.add(baxis_of(v))
+    if not found:
+        return frozenset()
+    if len(ks) == 1 and None not in ks:
+        return frozenset(["batch", ("baxis", next(iter(ks)))])
+    return frozenset(["batch"])
 
 
 def ret_tags(*vals):
@@ -226,6 +243,9 @@ class Interp:
         sa, sb = a.comp.get("__symstore", {}), b.comp.get("__symstore", {})
         ss = {}
         for k in set(sa) | set(sb):
+            if isinstance(k, tuple) and isinstance(k[0], str) and k[0].startswith("new#") and ((k in sa) != (k in sb)):
+                ss[k] = sa.get(k, sb.get(k))     # an object created on one path only: nothing to merge with
+                continue
             x, y = sa.get(k, "entry"), sb.get(k, "entry")
             ss[k] = x if (x is not None and not isinstance(x, str) and x == y) else (x if x == y else None)
         comp["__symstore"] = ss
@@ -540,7 +560,12 @@ class Interp:
 
     def s_For(self, s, st):
         it = self.ev(s.iter, st)
-        if (it.items is not None and 0 < len(it.items) <= 12 and all(i.has_const() for i in it.items)
+        def _static(v, d=0):
+            if v.has_const() or v.kind in ("func", "class", "ext"):
+                return True
+            return d < 2 and v.kind in ("tuple", "list") and v.items is not None and all(_static(i, d + 1) for i in v.items)
+
+        if (it.items is not None and 0 < len(it.items) <= 12 and all(_static(i) for i in it.items)
                 and it.kind in ("list", "tuple") and not s.orelse
                 and not any(isinstance(n, (ast.Break, ast.Continue)) for n in ast.walk(s))):
             # a loop over a literal display of constants is unrolled (precise getattr / dict keys)
@@ -1098,6 +1123,33 @@ class Interp:
             first = idx.items[0] if (idx.kind == "indextuple" and idx.items) else idx
             if first.kind != "int" and not (first.has_const() and isinstance(first.const, int)):
                 out = out.copy(tags=out.tags | {"batch"})
+                k = baxis_of(base)
+                if k is not None:
+                    # where does the batch axis go?  None inserts an axis, an int removes one, a slice / mask keeps one
+                    items = idx.items if idx.kind == "indextuple" else (idx,)
+                    pos, shift, known = 0, 0, True
+                    for it_ in items:
+                        if it_.kind == "none" or (it_.has_const() and it_.const is None):
+                            if pos <= k:
+                                shift += 1
+                        elif it_.has_const() and it_.const is Ellipsis:
+                            break
+                        elif it_.kind == "int" or (it_.has_const() and isinstance(it_.const, int) and not isinstance(it_.const, bool)):
+                            if pos == k:
+                                known = False
+                            elif pos < k:
+                                shift -= 1
+                            pos += 1
+                        elif it_.kind == "slice":
+                            pos += 1
+                        else:
+                            if pos <= k:
+                                known = pos == k and it_.kind in ("arr", "bool")   # a mask / index array on the batch axis keeps its place
+                            pos += 1
+                            if not known:
+                                break
+                    if known:
+                        out = out.copy(tags=out.tags | {("baxis", k + shift)})
         return out
 
     def _subscript(self, base: Val, idx: Val, node, st) -> Val:
@@ -1237,6 +1289,11 @@ class Interp:
         self._rawuse(st, node, l, r)
         if isinstance(op, ast.Sub) and l.kind in ("arr", "unknown") and r.kind in ("arr", "unknown") and l.deps:
             self.emit(st, "sub", node, left=l, right=r)
+        if isinstance(op, ast.MatMult):
+            # `a @ b` is np.matmul(a, b): one model for both spellings (events, frame tags, degrees)
+            return self.np.call_ext(self, "numpy.matmul", node, [l, r], {}, st)
+        if isinstance(op, ast.Mod) and (l.kind in ("arr", "unknown") or r.kind in ("arr", "unknown")) and not l.kind == "str":
+            return self.np.call_ext(self, "numpy.mod", node, [l, r], {}, st)
         out = self._binop(op, l, r, st, node)
         bt = batch_tag(l, r)
         if bt and out.kind not in ("str",):
@@ -1336,6 +1393,12 @@ class Interp:
             src = l if l.al else r
             if src.kind == "arr":
                 tags = frozenset([("translate-of", tuple(sorted(src.al)))])
+        if extra is None and isinstance(op, ast.Mult):
+            # array * scalar factor (either order): remember the factor for closed-form rules
+            if l.kind in ("arr", "unknown") and r.kind in ("float", "int") and r.sym is not None:
+                extra = ("factor", r)
+            elif r.kind in ("arr", "unknown") and l.kind in ("float", "int") and l.sym is not None:
+                extra = ("factor", l)
         if isinstance(op, ast.Sub) and l.obj is None:
             # `target - <current centroid>`: the displacement that moves the centroid onto `target`
             cen = {loc[0] for loc in r.al if loc[1] == "_centroid"} | \
@@ -1625,6 +1688,23 @@ class Interp:
         return self.call_val(f, args, kwargs, st, n)
 
     def call_val(self, f: Val, args, kwargs, st, node) -> Val:
+        if f.kind == "func" and f.fn is None:
+            alts = f.extra[1] if (f.extra and isinstance(f.extra, tuple) and f.extra[0] == "fns") else []
+            if not alts:
+                deps = frozenset()
+                for a in list(args) + list(kwargs.values()):
+                    deps |= a.deps
+                self.unmodelled.add("call of an unknown function value")
+                return Val(deps=deps, born=self.time)
+            # one of several functions met at a merge: each alternative on its own copy of the state, then join
+            outs, states = None, None
+            for fn_ in alts:
+                sti = self.copy_state(st)
+                ri = self.call_val(Val(kind="func", fn=fn_, dim=D0), args, kwargs, sti, node)
+                outs = join_vals(outs, ri)
+                states = self.join_states(states, sti)
+            st.env, st.comp = states.env, states.comp
+            return outs
         if f.kind == "func" and f.fn.name in self.config.get("opaque_functions", ()):
             deps, pdeps = frozenset(), frozenset()
             for a in list(args) + list(kwargs.values()):
@@ -1659,7 +1739,7 @@ class Interp:
                 self._rawuse(st, node, *args)
             r = self.np.call_ext(self, f.ext, node, args, kwargs, st)
             if short in ("atleast_2d",) and args:
-                r.tags = r.tags | {"batch2d", "batch"}
+                r.tags = r.tags | {"batch2d", "batch", ("baxis", 0)}
             elif batch_tag(*args) and short not in self.np.REDUCING and r.kind not in ("str", "int"):
                 r.tags = r.tags | {"batch"}
             if not r.has_const():
